@@ -72,6 +72,20 @@ func (fx *Fx) frameVarsAt(st *State, at *ssa.BasicBlock) map[string]Val {
 		vars[p.Name()] = v
 		vars[p.Name()+"0"] = v
 	}
+	for _, fv := range f.Fn.FreeVars {
+		v, ok := f.Vals[fv]
+		if !ok {
+			continue
+		}
+		v.T = fv.Type()
+		// captured variables are pointers to the variable: expose both the pointer and the current value
+		vars["&"+fv.Name()] = v
+		if pt, ok := fv.Type().Underlying().(*types.Pointer); ok && slots(pt.Elem()) <= 64 {
+			vars[fv.Name()] = st.Load(pt.Elem(), v.L[0], v.L[1])
+		} else {
+			vars[fv.Name()] = v
+		}
+	}
 	for k, v := range f.Vals {
 		if a, ok := k.(*ssa.Alloc); ok && a.Comment != "" {
 			if _, clash := vars[a.Comment]; !clash {
